@@ -172,6 +172,16 @@ fn main() {
             }
             std::process::exit(0);
         }
+        "coldstart" => {
+            // child mode of the cold-start probe: only the race, then out
+            let mut rec = Recorder::new(0);
+            rec.cur_stream = "cold-start".into();
+            mon.cold_start(&mut rec);
+            for v in &rec.violations {
+                println!("COLDSTART-VIOLATION {}", v.detail.replace('\n', " "));
+            }
+            std::process::exit(if rec.violation_count > 0 { 1 } else { 0 });
+        }
         "case" => {
             let stream = arg_after(&args, "--stream").unwrap_or("").to_string();
             let idx = arg_after(&args, "--idx").and_then(|s| s.parse().ok()).unwrap_or(0);
